@@ -26,6 +26,22 @@ def ws_split(s):
     return [x for x in _WS_RE.split(s) if x != '']
 
 
+def write_maybe_gz(path, data, gz, rnd):
+    """plain, or gzip: one member, or several members cut at arbitrary bytes (RFC 1952 allows a file to be a
+    concatenation of members: `cat a.gz b.gz`)"""
+    import gzip
+    if not gz:
+        with open(path, 'wb') as f:
+            f.write(data)
+        return
+    cuts = sorted(rnd.sample(range(1, len(data)), min(rnd.randint(0, 2), max(0, len(data) - 1)))) if len(data) > 1 else []
+    with open(path, 'wb') as f:
+        last = 0
+        for c in cuts + [len(data)]:
+            f.write(gzip.compress(data[last:c]))
+            last = c
+
+
 def export_lines(text):
     out = []
     for ln in text.split('\n'):
@@ -433,8 +449,7 @@ def record_corpus_case(cid, Ts, fmt, opts, sep, mods, seed, origin='tlc'):
     try:
         path = os.path.join(tmp, 'in.' + fmt + ('.gz' if gz else ''))
         data = text.encode(enc)
-        with (gzip.open(path, 'wb') if gz else open(path, 'wb')) as f:
-            f.write(data)
+        write_maybe_gz(path, data, gz, rnd)
         events = run_reader(mods, fmt, path, enc, reader_params(opts, sep, firstid), collect=seed % 3 == 1,
                             transforming=seed % 3 == 2)
     finally:
